@@ -774,9 +774,9 @@ def minimise(f: C.Failing) -> C.Failing:
 
 # ------------------------------------------------------------------------------------------- entry points
 
-def _budget(ctx: C.Ctx) -> Tuple[int, int]:
-    """(histories, ops per history)"""
-    return (90, 22) if ctx.tier == "quick" else (700, 280)
+def _budget(tier: str) -> Tuple[int, int]:
+    """(histories, max ops per history): about 3k ops quick, about 200k ops thorough"""
+    return (170, 32) if tier == "quick" else (1000, 300)
 
 
 DIRECTED = [
@@ -796,38 +796,47 @@ DIRECTED = [
 ]
 
 
-def correspond(ctx: C.Ctx, cov: C.Coverage) -> List[C.Disagreement]:
-    nh, ln = _budget(ctx)
-    cov.rule = ("seeded random histories over pools with colliding / case-differing / None idShorts, qualifier types and extension "
-                "names, nine namespace kinds (incl. the three Operation sets and SubmodelElementList with its hooks), elements owned "
-                "by other namespaces, re-insertion of removed elements; after EVERY call (returned or raised) the whole public view "
-                "(per element key+parent; per set iter, len, `in` for every element, get() for every key, positional view; per "
-                "namespace get_referable/get_qualifier_by_type/get_extension_by_name) is compared with the model's view. "
-                "non-trivial = the call changed the view or raised; distinct = (namespace kind, op kind, outcome, size of the set)")
+_RESULTS: Dict[Tuple[str, int], List[C.Failing]] = {}     # oracle failures seen while the correspondence drove the code
+
+
+def _shard(args) -> Dict[str, Any]:
+    """One worker: generate its share of the histories against the live implementation (with the oracle looking on), pipe
+    the same lines through the Lean driver, compare line by line."""
+    tier, seed, shard, nshards, nh, ln = args
+    rng = random.Random(f"C01:{seed}:{shard}")
     lines: List[Any] = []
     impl: List[Any] = []
     index: List[Tuple[int, int]] = []
     hist_ops: List[List[List[Any]]] = []
-    rng = ctx.rng
+    hist: Dict[str, int] = {}
+    nontrivial = set()
+    fails: List[C.Failing] = []
+    sigs = set()
     n_ops = 0
-    oracle_fail: List[C.Failing] = []
-    for hi in range(nh + len(DIRECTED)):
+    todo: List[Any] = list(DIRECTED) if shard == 0 else []
+    todo += [None] * len(range(shard, nh, nshards))
+    for hi, d in enumerate(todo):
         lines.append(["reset"])
         impl.append(["reset"])
         index.append((hi, -1))
-        if hi < len(DIRECTED):
+        if d is not None:
             w = World()
             hl, ho = [], []
-            for op in DIRECTED[hi]:
+            for op in d:
                 hl.append(op)
                 ho.append(w.step(op))
                 v = ["view", w.live_arg(), PROBES]
                 hl.append(v)
                 ho.append(w.step(v))
+            fl = check_history(d)
         else:
-            hl, ho, _ = run_history(rng, rng.randint(max(1, ln // 3), ln))
+            hl, ho, fl = run_history(rng, rng.randint(max(1, ln // 3), ln))
+        if fl is not None and fl.sig not in sigs:
+            sigs.add(fl.sig)
+            fails.append(fl)
         hist_ops.append(hl)
         prev_view = None
+        nskind = "-"
         for k, (l, o) in enumerate(zip(hl, ho)):
             lines.append(l)
             impl.append(o)
@@ -837,38 +846,78 @@ def correspond(ctx: C.Ctx, cov: C.Coverage) -> List[C.Disagreement]:
                 changed = o != prev_view
                 prev_view = o
                 raised = isinstance(r, list) and r[:1] == ["raise"]
-                if op[0] not in ("mk",):
+                if op[0] != "mk":
                     n_ops += 1
-                    cov.hit(op[0] + (":raise" if raised else ":ok"))
+                    key = op[0] + (":raise" if raised else ":ok")
+                    hist[key] = hist.get(key, 0) + 1
                     if raised:
-                        cov.hit("exc:" + ":".join(map(str, r[1:])))
+                        key = "exc:" + ":".join(map(str, r[1:]))
+                        hist[key] = hist.get(key, 0) + 1
                     if changed or raised:
-                        nsk = "-"
-                        if op[0] in ("ns",):
-                            nsk = op[1]
-                        cov.nontrivial.add(C.sha([op[0], r[:3] if raised else "ok", len(json.dumps(o)) // 40, nsk]))
-    cov.evaluations = n_ops
-    cov.samples = [[l for l in hist_ops[len(DIRECTED)] if l[0] != "view"][:14]] if len(hist_ops) > len(DIRECTED) else []
-    cov.extra["histories"] = nh + len(DIRECTED)
-    cov.extra["lines_compared"] = len(lines)
+                        nontrivial.add(C.sha([op[0], r[:3] if raised else "ok", len(json.dumps(o)) // 40,
+                                              op[1] if op[0] == "ns" else "-"]))
     model = C.run_model("C01", lines)
     dis: List[C.Disagreement] = []
     if len(model) != len(impl):
-        return [C.Disagreement("driver output length", None, len(model), len(impl))]
-    seen_h = set()
-    for k, (m, i) in enumerate(zip(model, impl)):
-        if i == ["raise", "*repr*"] and isinstance(m, list) and m[:1] == ["raise"]:
-            continue
-        if m != i:
-            hi, oi = index[k]
-            if hi in seen_h:
+        dis.append(C.Disagreement("driver output length", None, len(model), len(impl)))
+    else:
+        seen_h = set()
+        for k, (m, i) in enumerate(zip(model, impl)):
+            if i == ["raise", "*repr*"] and isinstance(m, list) and m[:1] == ["raise"]:
                 continue
-            seen_h.add(hi)
-            case = [l for l in hist_ops[hi][: oi + 1] if l[0] != "view"]
-            dis.append(C.Disagreement(f"ns line {json.dumps(lines[k])[:120]} (history {hi})", case, _diff(m, i)[0], _diff(m, i)[1]))
-            if len(dis) >= 5:
-                break
-    return dis
+            if m != i:
+                hi, oi = index[k]
+                if hi in seen_h:
+                    continue
+                seen_h.add(hi)
+                case = [l for l in hist_ops[hi][: oi + 1] if l[0] != "view"]
+                dm, di = _diff(m, i)
+                dis.append(C.Disagreement(f"ns line {json.dumps(lines[k])[:120]} (shard {shard}, history {hi})", case, dm, di))
+                if len(dis) >= 5:
+                    break
+    sample = [l for l in hist_ops[-1] if l[0] != "view"][:14] if hist_ops else []
+    return {"dis": dis, "hist": hist, "nontrivial": nontrivial, "ops": n_ops, "fails": fails, "lines": len(lines),
+            "histories": len(todo), "sample": sample}
+
+
+def correspond(ctx: C.Ctx, cov: C.Coverage) -> List[C.Disagreement]:
+    nh, ln = _budget(ctx.tier)
+    cov.rule = ("seeded random histories over pools with colliding / case-differing / None idShorts, qualifier types and extension "
+                "names, nine namespace kinds (incl. the three Operation sets and SubmodelElementList with its hooks), elements owned "
+                "by other namespaces, re-insertion of removed elements; after EVERY call (returned or raised) the whole public view "
+                "(per element key+parent; per set iter, len, `in` for every element, get() for every key, positional view; per "
+                "namespace get_referable/get_qualifier_by_type/get_extension_by_name) is compared with the model's view. "
+                "non-trivial = the call changed the view or raised; distinct = (op kind, outcome, size class of the view, "
+                "namespace kind for constructors)")
+    nshards = max(1, min(ctx.jobs, 16, nh // 8))
+    args = [(ctx.tier, ctx.seed, k, nshards, nh, ln) for k in range(nshards)]
+    if nshards == 1:
+        results = [_shard(args[0])]
+    else:
+        import multiprocessing as mp
+        with mp.get_context("fork").Pool(nshards) as pool:
+            results = pool.map(_shard, args)
+    dis: List[C.Disagreement] = []
+    fails: List[C.Failing] = []
+    for r in results:
+        dis += r["dis"]
+        fails += r["fails"]
+        cov.evaluations += r["ops"]
+        cov.nontrivial |= r["nontrivial"]
+        for k, v in r["hist"].items():
+            cov.hit(k, v)
+    cov.samples = [results[-1]["sample"]]
+    cov.extra["histories"] = sum(r["histories"] for r in results)
+    cov.extra["lines_compared"] = sum(r["lines"] for r in results)
+    cov.extra["shards"] = nshards
+    cov.extra["neutral_zones"] = [
+        "which exception type a call raises when Referable.__repr__ itself fails while the error message is formatted (*repr*)",
+        "semantic_id assignment is part of the histories (the invariant must survive it) but is not held to the atomicity "
+        "clause: C01's clause names insertion, replacement, removal and rename only",
+        "iteration order of unordered sets is compared with the model (dict order) but not judged by the oracle",
+    ]
+    _RESULTS[(ctx.tier, ctx.seed)] = fails
+    return dis[:5]
 
 
 def _diff(m, i):
@@ -886,21 +935,28 @@ def _diff(m, i):
 
 
 def oracle(ctx: C.Ctx, cov: C.Coverage) -> List[C.Failing]:
-    nh, ln = _budget(ctx)
-    rng = random.Random(f"{ctx.prop}:oracle:{ctx.seed}")
+    """The oracle watched every call of the correspondence run (same histories); when that run did not happen (driver
+    broken) the histories are generated again here."""
+    fails = _RESULTS.get((ctx.tier, ctx.seed))
+    if fails is None:
+        nh, ln = _budget(ctx.tier)
+        rng = random.Random(f"{ctx.prop}:oracle:{ctx.seed}")
+        fails = []
+        for d in DIRECTED:
+            f = check_history(d)
+            if f:
+                fails.append(f)
+        for _ in range(nh if ctx.tier == "quick" else nh // 4):
+            _, _, f = run_history(rng, rng.randint(max(1, ln // 3), ln))
+            if f:
+                fails.append(f)
     out: List[C.Failing] = []
     sigs = set()
-    for d in DIRECTED:
-        f = check_history(d)
-        if f and f.sig not in sigs:
+    for f in fails:
+        if f.sig not in sigs:
             sigs.add(f.sig)
             out.append(minimise(f))
-    for _ in range(nh):
-        _, _, f = run_history(rng, rng.randint(max(1, ln // 3), ln))
-        if f and f.sig not in sigs:
-            sigs.add(f.sig)
-            out.append(minimise(f))
-    cov.extra["oracle_histories"] = nh + len(DIRECTED)
+    cov.extra["oracle_failures_seen"] = len(fails)
     return out
 
 
